@@ -3,6 +3,7 @@ mod c03;
 mod c04;
 mod c05;
 mod c06;
+mod poly;
 mod c06sig;
 mod c07;
 mod schema;
@@ -35,9 +36,9 @@ use common::*;
 /// All sub-checks of a property for a tier.
 fn checks_for(property: &str, tier: Tier) -> Vec<Box<dyn Check>> {
     match property {
-        | "C01" => vec![Box::new(c02::Universe::new(c02::Mode::Safety, tier)), Box::new(c03::Mutants::new(true, tier))],
-        | "C02" => vec![Box::new(c02::Universe::new(c02::Mode::Agreement, tier))],
-        | "C03" => vec![Box::new(c02::Universe::new(c02::Mode::Acceptance, tier)), Box::new(c03::Mutants::new(false, tier))],
+        | "C01" => vec![Box::new(c02::Universe::new(c02::Mode::Safety, tier)), Box::new(c03::Mutants::new(true, tier)), Box::new(poly::PolyUniverse::new("C01", tier))],
+        | "C02" => vec![Box::new(c02::Universe::new(c02::Mode::Agreement, tier)), Box::new(poly::PolyUniverse::new("C02", tier))],
+        | "C03" => vec![Box::new(c02::Universe::new(c02::Mode::Acceptance, tier)), Box::new(c03::Mutants::new(false, tier)), Box::new(poly::PolyUniverse::new("C03", tier)), Box::new(poly::PolyMatrix::new(tier))],
         | "C04" => c04::checks(tier),
         | "C05" => c05::checks(),
         | "C06" => c06::checks(tier),
@@ -109,6 +110,35 @@ fn real_main() {
             if s.verdict().accepted() {
                 let r = s.run(b"", &[], 100000);
                 println!("run: {:?}", r);
+            }
+        }
+        | Some("polyrun") => {
+            let t = std::time::Instant::now();
+            let mut c = poly::PolyUniverse::new("C03", Tier::Quick);
+            eprintln!("constructed in {:.1}s", t.elapsed().as_secs_f64());
+            let i: usize = args[2].parse().unwrap();
+            let r = c.run(i);
+            eprintln!("ran case {} in {:.1}s: {} violations, counters {:?}", i, t.elapsed().as_secs_f64(), r.violations.len(), r.counters);
+            for v in r.violations.iter().take(3) {
+                eprintln!("{}\n{}", v.fingerprint, v.detail);
+            }
+        }
+        | Some("polygen") => {
+            let tier = Tier::parse(args.get(2).map(|s| s.as_str()).unwrap_or("quick"));
+            let t = std::time::Instant::now();
+            let u = poly::universe(tier);
+            println!("{} polymorphic programs ({:.1}s)", u.len(), t.elapsed().as_secs_f64());
+            let muts: usize = u.iter().take(200).map(|p| poly::mutants(p).len()).sum();
+            println!("mutants of the first 200: {}", muts);
+            for n in 2..=7 {
+                let t = std::time::Instant::now();
+                println!("matrix types with {} nodes: {} ({:.1}s)", n, poly::count_types(n), t.elapsed().as_secs_f64());
+                if t.elapsed().as_secs() > 5 {
+                    break;
+                }
+            }
+            for p in u.iter().rev().take(args.get(3).and_then(|s| s.parse().ok()).unwrap_or(3)) {
+                println!("{}", poly::program(p, false));
             }
         }
         | Some("gen") => {
